@@ -126,7 +126,7 @@ def gen_convex(r):
 
 def gen_to_function(r, info):
     N, cls = info["N"], info["cls"]
-    cands = [["value", p] for p in info["ps"]] + [["sample_p", p] for p in info["pcs"]]
+    cands = [["value", p] for p in info["ps"] if p not in info.get("guess_params", ())] + [["sample_p", p] for p in info["pcs"]]
     cands += [["value_v", v] for v in info["vs"]] + [["sample_v", v] for v in info["vcs"]]
     # CasADi accepts purely symbolic arguments only: DirectCollocation keeps all states (controls) of a node in
     # one variable, so there only the whole vector can be listed
@@ -444,8 +444,22 @@ def gen_run(r, w, emit):
     nsteps = r.randint(0, 5)
     cfg = {"array_guess": True, "expr_guess": True}
 
-    def history_step():
-        k = G.wpick(r, [(3, "set_value"), (3, "set_initial"), (2, "solve"), (1, "method")])
+    def history_step(exported=False):
+        k = G.wpick(r, [(3, "set_value"), (3, "set_initial"), (2, "solve"), (1, "method"), (1, "solver"), (0 if exported else 1.5, "param_guess")])
+        if k == "solver":
+            # another solver (or other options) is declared; an export taken afterwards must embed it
+            mode2 = G.pick(r, ["map", "conv", "loose"])
+            emit({"op": "solver", "name": SOLVERS[mode2][0], "opts": jcopy(SOLVERS[mode2][1])})
+            return
+        if k == "param_guess":
+            # a guess that mentions a parameter: it follows later values of that parameter
+            x = G.pick(r, info["xs"] + info["us"])
+            p = G.pick(r, info["ps"])
+            # (such a parameter is never listed as a function argument: whether an unlisted guess "keeps its current
+            #  value" or follows a new value of a listed parameter is not settled by the statement)
+            info.setdefault("guess_params", set()).add(p)
+            emit({"op": "set_initial", "x": x, "g": ["expr", ["*", ["s", p], G.gen_time_expr(r)]]})
+            return
         if k == "set_value":
             p = G.pick(r, info["ps"] + info["pcs"])
             emit({"op": "set_value", "p": p, "v": G.gen_value(r, sp.sym(p), N)})
@@ -491,12 +505,12 @@ def gen_run(r, w, emit):
         tf["labels"] = [li, lo]
     emit(tf)
     for i in range(r.randint(0, 3)):
-        history_step()
+        history_step(exported=True)
     emit({"op": "evaluate", "name": "F1", "vals": vals})
     if r.random() < 0.35:
         # the function is exported again (same name, same expressions) after unlisted values have changed
         for i in range(r.randint(1, 3)):
-            history_step()
+            history_step(exported=True)
         emit(dict(tf))
         emit({"op": "evaluate", "name": "F1", "vals": [gen_val(r, a, info) for a in args]})
     if r.random() < 0.4:
